@@ -139,6 +139,11 @@ func newC19Fixtures() *c19Fixtures {
 	shortPayload := mcbor.Encode(short)
 	_, serr := psatoken.DecodeClaimsFromCBOR(shortPayload)
 	add("signed-by-k1-claims-with-7-byte-nonce", envelope(vA.prot, nil, shortPayload, rawSign(f.k1, "ES256", vA.prot, shortPayload)), serr == nil)
+	// genuinely signed envelopes whose payload is a byte string / tag 24 around a valid claims map
+	wrapped := mcbor.Encode(mcbor.B(vA.payload))
+	add("signed-by-k1-claims-map-wrapped-in-a-byte-string", envelope(vA.prot, nil, wrapped, rawSign(f.k1, "ES256", vA.prot, wrapped)), false)
+	wrapped24 := mcbor.Encode(mcbor.Tg(24, mcbor.B(vA.payload)))
+	add("signed-by-k1-claims-map-in-tag-24", envelope(vA.prot, nil, wrapped24, rawSign(f.k1, "ES256", vA.prot, wrapped24)), false)
 	nullPayload := []byte{0xf6}
 	add("signed-by-k1-null-payload", envelope(vA.prot, nil, nullPayload, rawSign(f.k1, "ES256", vA.prot, nullPayload)), false)
 	return f
